@@ -16,7 +16,7 @@ META = {
         'renumbered in an ascending scan labelling a whole chain on first encounter; C05.ROOT - in the cross-chunk merge an earlier '
         'label is followed to its root before the minimum is taken, the second pass compresses paths to the minimum, the final pass '
         'maps labels to root numbers; C05.FULL-SCAN - the per-chunk grouping compares every target with all targets and links when '
-        'sep <= distance; C05.CELLS - cell formulas / RA rotation / wrap handling shared with C04. NOT decided: that the per-chunk '
+        'sep <= distance; C05.CELLS - cell formulas / RA rotation / wrap handling shared with C04. C05.CELLS also carries the chunk-grid rules shared with C04 (exact end points of decBounds, nRa final before layout, two-sided cosDecMin, every non-empty chunk grouped). NOT decided: that the per-chunk '
         'grouping plus the union-find produce exactly the connected components for all geometries.'),
     'floors': {'C05.MARGIN': 2, 'C05.LIST-DESC': 4, 'C05.RESET': 2, 'C05.RENUMBER': 1, 'C05.ROOT': 3, 'C05.FULL-SCAN': 3, 'C05.CELLS': 9},
 }
